@@ -6,7 +6,7 @@ ids = [json.loads(l)["id"] for l in open(os.path.join(VERIF, "properties.jsonl")
 
 L_NOTE = ("Trusted: Lean kernel + {propext, Classical.choice, Quot.sound}; the hand-written Lean model is tied to the code by "
           "channel L (real builder/strategies/definition vs compiled Lean driver on the same request lines: corpus, random deep "
-          "histories, an exhaustively enumerated small scope) — that tie is sampling, not proof. Assumed: alignments positive, "
+          "histories run against the library with and without debug assertions, an exhaustively enumerated small scope; a watchdog turns a request the builder never answers into a reported history) — that tie is sampling, not proof. Assumed: alignments positive, "
           "layouts below 2^63 (usize wrap-around not modelled).")
 
 V_NOTE = ("Trusted: Lean kernel + standard axioms; slot-machine model of convert.rs tied to the code by channel V (every script of "
@@ -63,11 +63,11 @@ CLAIMS = {
          "Lean 4 theorem (loop invariant over source variants, induction over histories) + correspondence"),
  "C08": ("Refinement theorem: the unsafe loop, modelled slot by slot with use-after-move/overwrite/type-confusion as explicit errors, "
          "equals the plain left-to-right pass for every input length and every converter (tryConvert_refines, three-region "
-         "invariant as a representation function); corollaries C08_result, C08_calls, C08_prev_is_last_output, C08_all_abandoned.", "4 C08", V_NOTE,
+         "invariant as a representation function); corollaries C08_result, C08_calls, C08_prev_is_last_output, C08_all_abandoned. Scripts include inputs of thousands of elements / hundreds of KiB (size thresholds).", "4 C08", V_NOTE,
          "Lean 4 refinement theorem (loop invariant by induction) + correspondence, debug and optimised builds"),
  "C09": ("C09_cleanup (failure at any call: every live output and every unconsumed input dropped exactly once, nothing leaked, "
          "buffer released, that very error/payload returned, no later call) and C09_no_memory_error, for all lengths, converters "
-         "and failure positions.", "4 C09", V_NOTE, "Lean 4 refinement theorem + correspondence with drop ledger and counting allocator"),
+         "and failure positions. Side scripts: zero-size and plain-data inputs, conversion run inside a destructor during unwinding.", "4 C09", V_NOTE, "Lean 4 refinement theorem + correspondence with drop ledger and counting allocator"),
  "C10": ("C10_refuse / C10_accept: layouts differing in size or alignment are refused before any element is read or the converter "
          "called, the input dropped normally; equal layouts never refused.", "4 C10", V_NOTE, "Lean 4 theorem + correspondence over a type-pair matrix"),
  "C04": ("Translated primitives (regenerated from data.rs each run): C04_store_permission (stores and &mut through as_mut_ptr on &mut self, all "
@@ -81,7 +81,7 @@ CLAIMS = {
  "C05": ("C05_convert: for consecutive variants with well-formed field lists and a record satisfying the record invariant, every one of the four generated conversion functions runs on the abstract machine without error, keeps every carried-over field, gives every written added field the supplied value, returns (or destroys exactly once) the removed values, and re-establishes the invariant; C05_chain: every record reachable by any chain of constructors / conversions / writes satisfies that invariant (induction over Reach). Hypotheses (ModuleWF) are evaluated by the driver on every sampled module; channel X compares compiled code with the machine on every form and random chains.", "4 C05", X_NOTE, "Lean 4 refinement theorems (record invariant, induction over reachable records) + correspondence with compiled generated code"),
  "C06": ("C06_end_of_life (any reachable record: drop destroys exactly the droppable field values, unpack destroys nothing and returns them), C06_removed_dropped (non-returning conversions destroy exactly the removed droppable values), C06_new_then_drop / _unpack, C06_no_second_read_partial; with C05_convert this gives ledger balance along any life cycle. Channel X: drop multiset per call vs machine + independent birth/death ledger with leak detection on compiled code.", "4 C06", X_NOTE,
          "Lean 4 theorems (counting invariant over reachable records) + correspondence with drop ledger on compiled generated code"),
- "C07": ("C07_no_machine_error: on every record reachable by any sequence of constructor / conversion / write of a well-formed module with any capacity >= every field end, drop, unpack, every accessor and every conversion form run without oob / read-moved / store-over-owned / double-free; C07_store_tolerates_misalignment and C07_loads_are_typed decided on the translated primitives; C07_aligned_access, C07_in_bounds. Hook log of compiled code checked for bounds and alignment at real addresses.", "4 C07", X_NOTE,
+ "C07": ("C07_no_machine_error: on every record reachable by any sequence of constructor / conversion / write of a well-formed module with any capacity >= every field end, drop, unpack, every accessor and every conversion form run without oob / read-moved / store-over-owned / double-free; C07_store_tolerates_misalignment and C07_loads_are_typed decided on the translated primitives; C07_aligned_access, C07_in_bounds. Hook log of compiled code checked for bounds and alignment at real addresses. A Miri pass (cargo +nightly miri run) over 6 (quick) / 24 (thorough) fully initialised lab modules supports the failing-input search: any Undefined Behavior report is a C07 violation with the module as replay (skipped and recorded in the evidence if Miri is not installed).", "4 C07", X_NOTE,
          "Lean 4 theorems (no machine error on reachable records; translated primitives) + access-log validation on compiled generated code"),
  "C11": ("Theorems over the generator model + modelled compiler rules, for every definition: C11_size, C11_align, C11_copy (any datum of any "
          "variant with wrong recorded size / alignment, or a may-be-uninit datum of a non-Copy type, makes `accepts` false), "
@@ -106,7 +106,7 @@ CLAIMS = {
          "fully qualified spellings of the five std types are recorded identically, at any position), C17_whitespace (two spellings of the same "
          "token sequence with any amount of whitespace before/between/after the tokens are normalised and looked up identically: lexer invariant by "
          "induction over the token list). The parser/printer pair (syn / quote) is modelled and carried by the tie: channel T compares the real normaliser with the Lean lexer+parser+rewrite+printer on ~7000 "
-         "spellings of ~1200 concrete types, and a rustc probe `fn(T) -> <recorded name>` per type validates the resolution hypothesis.", "4 C17",
+         "spellings of ~1600 concrete types, and a rustc probe `fn(*mut T) -> *mut <recorded name>` (type equality, not coercibility) per type validates the resolution hypothesis; the probe also covers function-pointer, reference and raw-pointer types, which are outside the Lean grammar (compiler-decided only).", "4 C17",
          "Trusted: Lean kernel + standard axioms; syn/quote are modelled by a hand-written lexer/parser/printer (tied by channel T); rustc name resolution assumed as the Prelude hypothesis and validated by compile probes.",
          "Lean 4 theorems (mutual structural induction over type syntax) + correspondence on a type catalogue + rustc probes"),
 }
